@@ -1,4 +1,5 @@
 import Osmt.Itp
+import Osmt.ItpPath
 /-!
 `itp` mode.  Lines:
   `ALG k`                      labelling system (0 McMillan, 1 Pudlák, 2 McMillan')
@@ -51,6 +52,47 @@ def runItp (lines : List String) : List String := Id.run do
         if !n.structOk then out := "REJECT structure (labels or pivots)" :: out
         else if !n.clause.isEmpty then out := s!"REJECT root clause not empty ({n.clause.length} literals)" :: out
         else out := ("OK " ++ showF n.itp) :: out
+      | none => out := "REJECT no such node" :: out
+    | _ => pure ()
+  return out.reverse
+
+/-- `itp2` mode (sequence interpolants, two consecutive cuts of one refutation).  Lines:
+  `ALG k`, `MID m`           labelling system; index of the middle group (groups < m are A₁, groups > m are B₂)
+  `GRP g v..`                variables that occur in group g
+  `LEAF g l..`               a leaf clause of group g
+  `RES i j p`, `ROOT i`      → `OK <I₁> | <I₂>` when the doubly labelled refutation passes `labelsOK` and `structOk` and derives the
+                             empty clause, else `REJECT ...` -/
+def runItp2 (lines : List String) : List String := Id.run do
+  let mut alg := 0
+  let mut mid := 0
+  let mut grps : List (Nat × List Nat) := []
+  let mut nodes : Array Node2 := #[]
+  let mut out : List String := []
+  for l in lines do
+    match l.trimAscii.toString.splitOn " " with
+    | ["ALG", k] => alg := k.toNat?.getD 0
+    | ["MID", k] => mid := k.toNat?.getD 0
+    | "GRP" :: g :: vs => grps := (g.toNat?.getD 0, vs.filterMap String.toNat?) :: grps
+    | "LEAF" :: g :: ls =>
+      let c := ls.filterMap litOf
+      let gi := g.toNat?.getD 0
+      let gs := grps; let ag := alg; let m := mid
+      let occ := fun (pred : Nat → Bool) (v : Nat) => gs.any (fun e => pred e.1 && e.2.contains v)
+      let labs : Labs := (c.map (·.var)).eraseDups.map (fun v =>
+        (v, systemLabel ag (occ (· < m)) (occ (· ≥ m)) v, systemLabel ag (occ (· ≤ m)) (occ (· > m)) v))
+      let o : Origin := if gi < m then .first else if gi == m then .middle else .last
+      nodes := nodes.push (.leaf c o labs)
+    | ["RES", i, j, p] =>
+      match i.toNat?.bind (nodes[·]?), j.toNat?.bind (nodes[·]?), p.toNat? with
+      | some a, some b, some v => nodes := nodes.push (.res a b v)
+      | _, _, _ => out := "REJECT bad RES line" :: out
+    | ["ROOT", i] =>
+      match i.toNat?.bind (nodes[·]?) with
+      | some n =>
+        if !n.labelsOK then out := "REJECT labels of the two cuts do not fit" :: out
+        else if !n.proj1.structOk then out := "REJECT structure (labels or pivots)" :: out
+        else if !n.proj1.clause.isEmpty then out := s!"REJECT root clause not empty ({n.proj1.clause.length} literals)" :: out
+        else out := ("OK " ++ showF n.proj1.itp ++ " | " ++ showF n.proj2.itp) :: out
       | none => out := "REJECT no such node" :: out
     | _ => pure ()
   return out.reverse
